@@ -116,7 +116,9 @@ FastRational gcd(FastRational const & a, FastRational const & b)
 {
     assert(a.isInteger() and b.isInteger());
     if (a.wordPartValid() && b.wordPartValid()) {
-        return FastRational(gcd(a.num, b.num));
+        // The gcd is non-negative (as mpz_gcd in the other branch): work on absolute values. Besides giving the
+        // wrong sign, the remainder of signed operands overflows for INT_MIN % -1.
+        return FastRational(gcd(absVal(a.num), absVal(b.num)));
     }
     else {
         a.ensure_mpq_valid();
@@ -130,7 +132,8 @@ FastRational lcm(FastRational const & a, FastRational const & b)
 {
     assert(a.isInteger() and b.isInteger());
     if (a.wordPartValid() && b.wordPartValid()) {
-        return lcm(a.num, b.num);
+        // Non-negative, as mpz_lcm in the other branch
+        return lcm(absVal(a.num), absVal(b.num));
     }
     else {
         a.ensure_mpq_valid();
